@@ -48,12 +48,18 @@ def digit_pokes(w, n, tb):
         pad = mx if neg else 0
         for lo in lows:
             base = [lo] * k0 + [pad] * (n - k0)
-            vs.add(from_digits(base[:n], w))
-            for i in range(k0, n):
+            bv = from_digits(base[:n], w)
+            vs.add(bv)
+            # every padding position when there are few; for very wide sources the first / last ones, the positions
+            # around 255/256 (a u8 counter), 511/512, 1023/1024 and an evenly spaced sample
+            if n - k0 <= 48:
+                pos = range(k0, n)
+            else:
+                pos = sorted({i for i in list(range(k0, k0 + 4)) + list(range(n - 4, n)) + [254, 255, 256, 257, 258, 511, 512, 513, 1023, 1024]
+                              + list(range(k0, n, max(1, (n - k0) // 12))) if k0 <= i < n})
+            for i in pos:
                 for alt in (pad ^ 1, pad ^ (1 << (w - 1)), pad ^ mx):
-                    ds = list(base[:n])
-                    ds[i] = alt
-                    vs.add(from_digits(ds, w))
+                    vs.add(bv ^ ((pad ^ alt) << (w * i)))
             # padding everywhere, top bit of the last covered digit set / clear
             for top in (0, 1 << (w - 1), (1 << (w - 1)) - 1, mx):
                 ds = list(base[:n])
@@ -146,7 +152,7 @@ def gen(rng, tier):
         for op in ("from_digits", "from_array", "into_array", "digits"):
             for v in [rng.choice(bv) for _ in range(4)] + [gen_value(rng, w, n) for _ in range(per_r)]:
                 out.append("%s %d %d %s" % (op, w, n, tokV(v, w, n)))
-            out.append("%s %d %d %s" % (op, w, n, tokL(list(range(1, n + 1)))))      # distinct digits: order visible
+            out.append("%s %d %d %s" % (op, w, n, tokL([(i % ((1 << w) - 1)) + 1 for i in range(n)])))      # distinct digits: order visible
         for d in special_digits(w) + [gen_digit(rng, w) for _ in range(per_r)]:
             out.append("from_digit %d %d %s" % (w, n, tokZ(d)))
     if thorough:
